@@ -210,5 +210,8 @@ func ObserveBytes(name string, v []byte) {
 	Observed = append(Observed, fmt.Sprintf("%s=%q", name, string(v)))
 }
 
+// Conformance reports whether this is a conformance run (pseudo-random concrete inputs).
+func Conformance() bool { return random }
+
 // Symbolic reports whether the harness runs inside the symbolic engine with symbolic inputs.
 func Symbolic() bool { return false }
